@@ -3,9 +3,9 @@ CONSTANTS
   P = 2
   EP = 2
   G = 1
-  MaxSlot = 13
+  MaxSlot = 7
   StartSlots = {0, 3}
-  Mode = "design"
+  Mode = "clearall"
   RecMax = 2
   RecKeep = 1
   RootKeep = 2
@@ -15,6 +15,6 @@ CONSTANTS
   Menu = {{}, {0}, {0, 1}}
   Moods = {"quiet", "plain", "reorg"}
   MaxReorgs = 2
-  Fams = {"att", "sync", "bids"}
-INVARIANTS TypeOK RunningLeftTable AttestedBounded SubsBounded RootsBounded RecordsBounded BidsBounded JobsBounded PendingExact
+  Fams = {"att"}
+INVARIANTS PendingExactAtRest
 CHECK_DEADLOCK FALSE
